@@ -128,8 +128,8 @@ impl Property for C06 {
         "C06"
     }
     fn rule(&self) -> String {
-        "histories of up to 30 operations over {set, delete, append, set_range, reset} with positions drawn from {0, uniform, mark, mark±1, cap-1, near end, cap, cap+1, usize::MAX}, depth 1..6 (all leaves and all subtree roots observed after every step) and 10/20 (touched positions, siblings, probes); \
-         every backend of the case (full, optimal, pmtree, RLN byte API) is run against its own ideal model. non-trivial = history with a range write at start>0 or unaligned across a pair boundary, or a delete followed by a write of that position, on >=2 backends; distinct by case content".into()
+        "histories of up to 30 operations over {set, delete, append, set_range, reset} with positions drawn from {0, uniform, mark, mark±1, cap-1, near end, cap, cap+1, usize::MAX}, depth 1..6 (all leaves and all subtree roots observed after every step) and 10/20 (touched positions, siblings, probes); A quarter of the histories have the state read back by a second long-lived thread of the caller (taking turns with the thread that writes). \
+         non-trivial = history with a range write at start>0 or unaligned across a pair boundary, or a delete followed by a write of that position, on >=2 backends; distinct by case content".into()
     }
     fn assumptions(&self) -> Vec<String> {
         vec!["the pair hash used by the ideal tree is the tree's own Hasher (judged separately by C09)".into()]
